@@ -40,6 +40,8 @@ type Scan struct {
 // Req is one request of a case.
 //
 //	op: get put del batch scan begin commit rollback txget txput txdel txscan nodeinfo stats
+//	    scanproduct (macro: the full product of scan options derived from Seeds, as Scan
+//	    requests when H < 0, as TxScan requests on handle H otherwise)
 //
 // H addresses a handle slot: slot i is the handle returned by the i-th begin
 // request that was issued. H outside [0, #slots) is an unknown handle.
@@ -52,6 +54,7 @@ type Req struct {
 	Batch  []BOp      `json:"batch,omitempty"`
 	Fill   int        `json:"fill,omitempty"` // batch: filler puts appended after Batch (pool keys cyclically)
 	Scan   *Scan      `json:"scan,omitempty"`
+	Seeds  []int      `json:"seeds,omitempty"` // scanproduct: pool indices / lengths the option values are derived from
 	Direct bool       `json:"direct,omitempty"` // call the server method directly instead of through the transport
 }
 
@@ -327,6 +330,14 @@ func verdict(c *Case, r *Req, md *model) string {
 		if w >= 0 {
 			return "blocks"
 		}
+	case "scanproduct":
+		if r.H < 0 {
+			if w >= 0 {
+				return "blocks"
+			}
+		} else if v := handle(); v != "" {
+			return v
+		}
 	case "begin":
 		if w >= 0 || (!r.RO && nr > 0) {
 			return "blocks"
@@ -413,8 +424,41 @@ func (md *model) scanCount(h int, s *Scan) int {
 	return n
 }
 
+// productScans expands a scanproduct request: every combination of
+// prefix x suffix x start x end (limits are added by the executor, which knows
+// the number of matching entries).
+func (c *Case) productScans(r *Req) []Scan {
+	seed := func(i int) int {
+		if i < len(r.Seeds) && r.Seeds[i] >= 0 {
+			return r.Seeds[i]
+		}
+		return 0
+	}
+	pk, sk, ak, bk := c.key(seed(0)), c.key(seed(2)), c.key(seed(4)), c.key(seed(5))
+	pl := 1 + seed(1)%len(pk)
+	sl := 1 + seed(3)%len(sk)
+	cp := func(b []byte) []byte { return append([]byte{}, b...) }
+	prefixes := [][]byte{nil, cp(pk[:pl]), append(cp(pk), 0x07)}
+	suffixes := [][]byte{nil, cp(sk[len(sk)-sl:])}
+	starts := [][]byte{nil, cp(ak), append(cp(ak), 0x00)}
+	ends := [][]byte{nil, cp(bk), append(cp(bk), 0x00), {0x00}}
+	var out []Scan
+	for _, p := range prefixes {
+		for _, s := range suffixes {
+			for _, a := range starts {
+				for _, b := range ends {
+					out = append(out, Scan{Prefix: p, Suffix: s, Start: a, End: b})
+				}
+			}
+		}
+	}
+	return out
+}
+
 func (r *Req) describe(c *Case) string {
 	switch r.Op {
+	case "scanproduct":
+		return fmt.Sprintf("scanproduct h=%d seeds=%v", r.H, r.Seeds)
 	case "get", "del":
 		return fmt.Sprintf("%s k=%d(len %d)", r.Op, r.K, len(c.key(r.K)))
 	case "put":
